@@ -424,7 +424,7 @@ impl Property for C13 {
         ]
     }
     fn cases(&self, tier: Tier) -> usize {
-        tier.pick(60000, 300_000)
+        tier.pick(150000, 3_000_000)
     }
     fn strategy(&self, tier: Tier) -> BoxedStrategy<Case> {
         let max = tier.pick(30, 120);
